@@ -123,7 +123,7 @@ pub fn ref_run_fuel(p: &Program, sigs: &[Sig], script: &[Step], steps: usize, ro
 }
 
 pub fn not_loaded(init: &ObsInit) -> Obs {
-    Obs { init: init.clone(), items: vec![], calls_after: vec![], log: vec![], exhausted: false, vars: vec![], key: None, draws: vec![], signal_names: vec![] }
+    Obs { init: init.clone(), items: vec![], calls_after: vec![], log: vec![], exhausted: false, vars: vec![], key: None, draws: vec![], signal_names: vec![], vars_panic: None }
 }
 
 /// Reference run over a script whose last step repeats for ever
